@@ -62,6 +62,18 @@ theorem reach_clause (es : List (Edge α)) (root t : α) :
     t ∈ reachSet es root ↔ Star (Need es) root t :=
   mem_reachSet_iff es root t
 
+/-- clause 6: every pool a statement is bound to (by its own `pool =` or its rule's) is declared or is `console`;
+no pool is declared twice -/
+theorem pools_clause (g : Graph α) :
+    poolsB g = true ↔ (∀ e ∈ g.edges, e.pool = [] ∨ e.pool = console ∨ e.pool ∈ g.pools) ∧
+      (g.pools.Nodup ∧ console ∉ g.pools) :=
+  poolsB_iff g
+
+/-- clause 7: every `default` target is produced by a statement -/
+theorem defaults_clause (g : Graph α) :
+    defaultsB g = true ↔ ∀ d ∈ g.defaults, ∃ e ∈ g.edges, d ∈ e.outs :=
+  defaultsB_iff g
+
 /-- consequence in the property's words: in an accepted graph two different statements never share an output -/
 theorem accepted_no_double_producer (g : Graph α) (fs : List α) (reqs : List (α × α))
     (h : wellFormed g fs reqs = true) (i j : Nat) (hij : i < j) (hj : j < g.edges.length) (p : α) :
@@ -106,6 +118,27 @@ example : wellFormed { exGraph with rules := ["CC".toList] } [1, 2] [] = false :
 -- test dependency not hanging below the prerequisite target
 example : wellFormed exGraph [1, 2] [(101, 21)] = true := by decide
 example : wellFormed exGraph [1, 2] [(101, 2), (100, 101)] = false := by decide
+
+-- a statement bound to a pool that is not declared / declared / the built-in one; a default target nobody produces
+example : wellFormed { exGraph with edges := exGraph.edges ++ [{ rule := phony, outs := [7], ins := [], pool := "link_pool".toList }] }
+    [1, 2] [] = false := by decide
+example : wellFormed { exGraph with pools := ["link_pool".toList], defaults := [100],
+                                    edges := exGraph.edges ++ [{ rule := phony, outs := [7], ins := [], pool := "link_pool".toList },
+                                                               { rule := phony, outs := [8], ins := [], pool := console }] }
+    [1, 2] [] = true := by decide
+example : wellFormed { exGraph with pools := ["p".toList, "p".toList] } [1, 2] [] = false := by decide
+example : wellFormed { exGraph with defaults := [999] } [1, 2] [] = false := by decide
+
+-- the loader gives a statement the pool of its rule when it has none of its own (`Edge::GetBinding`)
+set_option maxRecDepth 8000 in
+example :
+    (match parse "pool link_pool\n depth = 1\nrule L\n command = ld\n pool = link_pool\nbuild a: L b\nbuild c: L d\n pool = console\ndefault a\n".toList with
+     | .ok ss => (match load ss with
+        | .ok m => (m.graph.pools, m.graph.edges.map (·.pool), m.graph.defaults)
+        | .error _ => ([], [], []))
+     | .error _ => ([], [], []))
+    = (["link_pool".toList], ["link_pool".toList, "console".toList], ["a"]) := by
+  decide
 
 /-- the manifest reader on a small text: escapes, implicit output, order-only input, canonicalisation -/
 example :
